@@ -1,7 +1,7 @@
 --------------------------- MODULE ScanRunTrace ---------------------------
 (* Trace validation of ONE run of the real sx binary on the virtual wire against ScanRun: the events are what the far end of the   *)
 (* wire saw, in capture-time order -                                                                                              *)
-(*   Start{expect}   Probe{t, bytes}   Inject{t, bytes}   Exit{t, code, records}                                                   *)
+(*   Start{expect}   Probe{t, bytes}   Inject{t, bytes}   Sigint{t}   Exit{t, code, records}                                                   *)
 (* - and the steps nobody outside can see (a pass opens its socket, the engine signals done, a record is printed, the exit delay   *)
 (* runs out and the pass is closed) are taken silently by TLC, with the time of the next observed event as the latest moment they    *)
 (* can have happened. ScanRun's constants are those of this run (one TLC process per run; they run in parallel).                    *)
@@ -28,10 +28,10 @@ CK == [ch \in 1..Len(X.chunkRanges) |-> KeysOf(ch)]
 Cfg(ch) == [scan |-> X.scan, vpn |-> X.vpn, hasNet |-> X.hasNet, net |-> X.target.net, ranges |-> X.chunkRanges[ch]]
 AccT(f, ch) == WD!ReplyShape(Cfg(ch), f)
 RecT(f, ch) == WD!RecordOf(Cfg(ch), f)
-VARIABLES l, c, phase, sentN, now, openT, lastSend, queue, out, hist, closeT
+VARIABLES l, c, phase, sentN, now, openT, lastSend, queue, out, hist, closeT, cancelled
 S == INSTANCE ScanRun WITH ChunkKeys <- CK, Frames <- {}, Acc <- AccT, Rec <- RecT, Delay <- X.delayUs - Tol, Lat <- LatUs, MaxT <- 0,
-                           Variant <- "asbuilt", AttachAtomic <- TRUE
-svars == <<c, phase, sentN, now, openT, lastSend, queue, out, hist, closeT>>
+                           Variant <- "asbuilt", AttachAtomic <- TRUE, InFlight <- 16
+svars == <<c, phase, sentN, now, openT, lastSend, queue, out, hist, closeT, cancelled>>
 E == Run[l]
 Is(e) == l <= Len(Run) /\ E.ev = e /\ l' = l + 1
 RecMatches(r, w) == CASE X.scan = "arp" -> r.ip = w.ip /\ r.mac = w.mac
@@ -45,8 +45,9 @@ TProbe == Is("Probe") /\ S!Send(DstOf(E.bytes), E.t)
 TInject == Is("Inject") /\ S!Arrive(E.bytes, E.t)
 \* the process exits: every pass is over, the exit status is 0, exit follows the last close within bounded time, and standard output
 \* holds exactly the records that were printed (as a bag)
+TSigint == Is("Sigint") /\ S!Cancel(E.t)
 TExit == /\ Is("Exit") /\ phase = "done" /\ E.code = 0
-         /\ E.t <= closeT[Len(closeT)].last + X.delayUs + ExitBound
+         /\ (IF cancelled.on THEN E.t <= cancelled.t + ExitBound ELSE E.t <= closeT[Len(closeT)].last + X.delayUs + ExitBound)
          /\ Len(E.records) = Len(out)
          /\ \A i \in 1..Len(out) : Cardinality({k \in 1..Len(E.records) : RecMatches(E.records[k], out[i].r)}) = Cardinality({j \in 1..Len(out) : Same(out[j].r, out[i].r)})
          /\ UNCHANGED svars
@@ -55,8 +56,9 @@ Tn == Run[l].t
 SOpen == l <= Len(Run) /\ Run[l].ev = "Probe" /\ S!Open(Tn) /\ UNCHANGED l
 SFinish == S!FinishSending /\ UNCHANGED l
 SEmit == (\E q \in queue : S!Emit(q)) /\ UNCHANGED l
-SClose == l <= Len(Run) /\ Run[l].ev \in {"Probe", "Exit"} /\ S!Close(Tn) /\ UNCHANGED l
-Next == TProbe \/ TInject \/ TExit \/ SOpen \/ SFinish \/ SEmit \/ SClose
+SClose == l <= Len(Run) /\ Run[l].ev \in {"Probe", "Exit", "Sigint"} /\ S!Close(Tn) /\ UNCHANGED l
+SAbort == l <= Len(Run) /\ Run[l].ev = "Exit" /\ (S!Abort(Tn) \/ S!Finish(Tn)) /\ UNCHANGED l
+Next == TProbe \/ TInject \/ TSigint \/ TExit \/ SOpen \/ SFinish \/ SEmit \/ SClose \/ SAbort
 TSpec == Init /\ [][Next]_<<l, svars>>
 HighWater == TLCSet(1, IF l > TLCGet(1) THEN l ELSE TLCGet(1))
 ASSUME TLCSet(1, 0)
